@@ -136,6 +136,10 @@ class ShimControl:
         self.np_proxy = NumpyProxy(numpy)
         self.extra_on = []    # callables(harness specific shims) -> undo callables
         self._extra_undo = []
+        from . import kern
+        self.fmd = kern.MergedFMD(self.mods["scoda.misc.util"].find_minimal_distance)
+        self.fmd_validation = self.fmd.validate()
+        self.merge_fmd = os.environ.get("VERIF_NO_MERGE", "") == ""
 
     def on(self):
         if self.active:
@@ -152,6 +156,12 @@ class ShimControl:
         u = self.mods["scoda.misc.util"]
         self._saved.append((u, "np", u.np))
         u.np = self.np_proxy
+        if self.merge_fmd and self.fmd.ok:
+            for m in ("scoda.misc.util", "scoda.sequences.absolute_sequence"):
+                mod = self.mods[m]
+                if "find_minimal_distance" in mod.__dict__:
+                    self._saved.append((mod, "find_minimal_distance", mod.__dict__["find_minimal_distance"]))
+                    mod.find_minimal_distance = self.fmd
         for f in self.extra_on:
             self._extra_undo.append(f())
 
